@@ -422,3 +422,35 @@ def no_module_is_dropped_silently(ctx):
             op = [op for l, op, r in compare_ops(t.ast)][0]
             ctx.check(side_never_completes(cfg, t.id, 'T' if op == 'is' else 'F'), f'{f.qualname}:unknown module name is refused', t.ast, 'raises NoSuchModuleError',
                       'a module name without configuration does not raise', f)
+
+
+@rule('C10.R11', min_instances=1)
+def a_false_start_value_is_still_a_value(ctx):
+    """Module.writeInitParams: whether there IS a value waiting for a parameter is asked by identity with the sentinel the pop
+    returns for "nothing there" (`is Done`), never by the truth of the popped value - 0, 0.0, False, '' and an empty array are
+    start values a configuration can give; taken for "nothing to write" they are removed from writeDict and never handed to
+    the write method"""
+    m = ctx.m
+    f = m.method(roles.MODULE, 'writeInitParams', inherited=False)
+    ctx.analysed(f)
+    units = [f] + [h for site, h in helper_methods_called(m, f)]
+    n = 0
+    for g in units:
+        popped = {x.targets[0].id for x in body_walk(g.node) if isinstance(x, ast.Assign) and len(x.targets) == 1 and isinstance(x.targets[0], ast.Name)
+                  and isinstance(x.value, ast.Call) and call_attr(x.value) in ('pop', 'get') and src(x.value.func.value) == 'self.writeDict'}
+        if not popped:
+            continue
+        gcfg = CFG(g.node, m, g.module)
+        for t in gcfg.nodes:
+            if t.kind != 'test' or isinstance(t.ast, ast.stmt):
+                continue
+            for a, tv in facts_on_side(t.ast, True) + facts_on_side(t.ast, False):
+                if isinstance(a, ast.Name) and a.id in popped:
+                    n += 1
+                    ctx.bad(f'{g.qualname}:the waiting value is tested by identity with the sentinel', t.ast,
+                            f'`{src(t.ast)}` decides by the truth of the value taken from writeDict: a configured start value of 0, 0.0, False, \'\' or [] is popped and '
+                            'silently never written to the hardware', g)
+        n += 1
+        ctx.ok(f'{g.qualname}:waiting values taken from writeDict', g.node, f'{sorted(popped)} compared with the sentinel', g)
+    if not n:
+        raise AnchorMissing('no value taken from self.writeDict in writeInitParams')
